@@ -216,7 +216,11 @@ def run_es(case):
     scale = np.array([float(np.sum(np.abs(c))) * m ** dim for c in cs])
     vol = float(np.prod(np.array(b) - np.array(a)))
     f = drive.vector_function(comps)
-    sa, op = drive.build_es(case, f)
+    grid = None
+    if case.get("esgrid", "trapezoidal") != "trapezoidal":
+        from checks.c05 import make_local_grid
+        grid = make_local_grid(case["esgrid"], np.array(a, dtype=float), np.array(b, dtype=float), True)
+    sa, op = drive.build_es(case, f, grid=grid)
     st_ = dict(steps=0, extends=0, splits_after_extend=0, n=None)
 
     def on_eval(k):
@@ -238,7 +242,7 @@ def run_es(case):
     drive.run_history(sa, case, on_eval=on_eval, before_refine=before_refine, after_refine=after_refine)
     out.cls(drive.scale_class(case))
     out.nontrivial = bool(st_["extends"] and st_["splits_after_extend"])
-    out.cls("version=%d" % case["version"], "estimator=%s" % case["estimator"])
+    out.cls("version=%d" % case["version"], "estimator=%s" % case["estimator"], "esgrid=%s/auto=%s" % (case.get("esgrid", "trapezoidal"), case["auto"]))
     if st_["extends"]:
         out.cls("extend-happened")
     out.info = dict(max_steps=st_["steps"], max_areas=len(sa.refinement.get_objects()))
@@ -372,7 +376,19 @@ def dwm_strategy(tier):
 
 
 def es_strategy(tier):
-    return drive.st_es_case(tier=tier, boundary_choices=(True,), scales=True, bounds_forms=True)
+    @st.composite
+    def s(draw):
+        c = draw(drive.st_es_case(tier=tier, boundary_choices=(True,), scales=True, bounds_forms=True))
+        # the statement covers every local grid family that integrates multilinear functions exactly, not only the trapezoidal one
+        c["esgrid"] = draw(st.sampled_from(["trapezoidal", "trapezoidal", "trapezoidal", "clenshawcurtis", "gausslegendre", "simpson", "lagrange", "bspline"]))
+        if c["esgrid"] != "trapezoidal":
+            # split_single_dim with a non-trapezoidal grid trips the library's own assertion in get_sum_sibling_value (see C05)
+            c["ssd"] = False
+            c["maxev"] = min(c["maxev"], 400)
+            if c["dim"] == 4:
+                c["esgrid"] = "trapezoidal"
+        return c
+    return s()
 
 
 def selftest():
